@@ -511,6 +511,24 @@ def run(ctx) -> None:
     parent_eq = [x for x in walk_local(ext.node) if isinstance(x, ast.Compare) and len(x.ops) == 1 and isinstance(x.ops[0], ast.Eq) and any("parent" in src(y) for y in [x.left, x.comparators[0]]) and any(isinstance(y, ast.Call) and isinstance(y.func, ast.Attribute) and y.func.attr == "get" for y in [x.left, x.comparators[0]])]
     oke = bool(itervars) and bool(negated) and not parent_eq
     rep.add("C20.R8", f"{ext.qname}:outside-by-parent-chain", oke, ext.loc(), "a consumer anywhere in the flat graph counts unless is_descendant_of places it inside the container" if oke else ("external consumers are selected by comparing a node's parent with one scope: only siblings of the container count, a consumer further out is missed and the value loses its DATA node while edges are still routed through it" if parent_eq else "external consumers are not decided by 'not is_descendant_of(<node>, <container>)' over all nodes of the flat graph"))
+    # node side, edge side and Mermaid group the external inputs the same way (by consumer set and bound status): every
+    # caller of the grouping function passes the bound parameters of the input specification
+    n_big = 0
+    for f in db.funcs_in("viz"):
+        for c in db.calls_in(f):
+            if "build_input_groups" not in call_names(db, c, f) or len(c.args) < 3:
+                continue
+            n_big += 1
+            a3 = c.args[2]
+            txt = src(a3)
+            if isinstance(a3, ast.Name):
+                txt += " " + " ".join(src(getattr(d_, "value", None) or ast.Constant("")) for d_ in db.local_defs(f).get(a3.id, []))
+                if a3.id in f.param_names:
+                    txt += " bound"
+            okb = "bound" in txt
+            rep.add("C20.R2", f"{f.qname}:input-groups-by-bound-status", okb, f"{f.module.rel}:{c.lineno}", "input groups are built from the specification's bound parameters" if okb else f"input groups are built with '{src(a3)}' instead of the bound parameters: this side merges a bound and an unbound input that share a consumer set into one group while the other side declares two — edges start at an undeclared node 'input_group_...' and the declared input nodes have no edges")
+    if n_big < 3:
+        raise AnalysisError(f"only {n_big} callers of build_input_groups found")
     # a drawn edge is skipped as a duplicate only when the very same edge (same two endpoints) was drawn before: the
     # de-duplication key names the endpoints that are handed to the edge formatter (a coarser key — the producer instead
     # of the value's DATA node — drops every further value between the same two nodes)
